@@ -87,6 +87,46 @@ func rulesC15(w *World, r *Report) {
 			o.Trivial = ok && len(fact) > 9 && fact[:9] == "forwarded"
 		}
 	}
+	// deferred (and go) calls: the language discards their results, so an error
+	// from a write issued in a defer can never reach the caller
+	for _, fn := range w.SrcFuncs() {
+		if !closure[fn] && !closure[rootFn(fn)] {
+			continue
+		}
+		cnt := 0
+		for _, b := range fn.Blocks {
+			for _, in := range b.Instrs {
+				var com *ssa.CallCommon
+				kind := ""
+				switch x := in.(type) {
+				case *ssa.Defer:
+					com, kind = &x.Call, "defer"
+				case *ssa.Go:
+					com, kind = &x.Call, "go"
+				default:
+					continue
+				}
+				relevant := com.IsInvoke() && com.Method.Name() == "Write" && types.TypeString(com.Value.Type(), nil) == "io.Writer"
+				name := "dynamic call"
+				for _, cal := range w.calleesOf(in.(ssa.CallInstruction)) {
+					if cal.Parent() != nil {
+						continue // a deferred closure: the calls inside it are ordinary call sites
+					}
+					if w.inPkg(cal) && closure[cal] {
+						relevant = true
+						name = fnName(cal)
+					}
+				}
+				if !relevant {
+					continue
+				}
+				cnt++
+				nSites++
+				r.add("C15.R1 write-error consumed", fmt.Sprintf("%s · %s#%d %s", fnName(fn), kind, cnt, name), w.instrPos(in), false,
+					"a call that can write to the destination is issued in a "+kind+" statement: its error (and short count) is discarded by the language and can never surface to the caller")
+			}
+		}
+	}
 	r.floor("C15.R1 call sites in the write closure", nSites, 40)
 	// R2 short counts
 	for _, c := range leafs {
